@@ -338,8 +338,13 @@ PROPS = {
         trace=CONC_TRACE,
         work=[dict(driver="sched", args=["--all"], quick=2, thorough=12, final_rc3=True)]),
     "C09": dict(
-        design=[(CONC, ["MC_RainConc_small.cfg"], ["MC_RainConc_small.cfg"])],
-        switches=[("Bug_NoNotify", CONC, "MC_RainConc_small.cfg", "AllWritersReturn")],
+        design=[(CONC, ["MC_RainConc_small.cfg"], ["MC_RainConc_small.cfg"]),
+                ("MC_RainManual.tla", ["MC_RainManual.cfg"], ["MC_RainManual.cfg", "MC_RainManual_big.cfg"])],
+        switches=[("Bug_NoNotify", CONC, "MC_RainConc_small.cfg", "AllWritersReturn"),
+                  ("Bug_HoldRequestAcrossMerge", "MC_RainManual.tla", "MC_RainManual.cfg", "Deadlock"),
+                  ("Bug_NotifyOne", "MC_RainManual.tla", "MC_RainManual.cfg", "NoLostWaiter"),
+                  ("Bug_NoRescheduleAtEnd", "MC_RainManual.tla", "MC_RainManual.cfg", "NoLostWaiter"),
+                  ("Bug_SlotNotCleared", "MC_RainManual.tla", "MC_RainManual.cfg", "EveryCallReturns")],
         work=[dict(driver="live", args=["--ops", "150"], quick=16, thorough=400, trace=CONC_TRACE,
                    final_rc3=True),
               dict(driver="sched", args=["--all"], quick=1, thorough=6, trace=CONC_TRACE,
